@@ -4,12 +4,14 @@ C40 — Authentication accepts exactly the valid credentials.
 Model: Gms/Model/Auth.lean. SHA-1 is an uninterpreted function `H` in every theorem (hypothesis used where
 needed: `H` returns 20 bytes). Property theorems are in `namespace Gms.C40`.
 
-  scramble check   `native_complete`, `native_sound`, `native_impl_eq_spec_partial`
-                   (false without the guard: `finding_native_short_response_oob` — the code panics on a
-                   1–19-byte response; `finding_native_long_response_accepted` — bytes after the 20th are
-                   never read)
+  scramble check   `native_complete`, `native_sound`, `native_impl_eq_spec` (full statement, holds since the
+                   `fix:` commit that added `if len(authResponse) != len(scramble) { return false }`),
+                   `native_no_crash`; the two repaired defects are kept as witnesses about the pre-fix
+                   model: `fixed_native_short_response_oob` (the old code panicked on a 1–19-byte response),
+                   `fixed_native_long_response_accepted` (bytes after the 20th were never read)
   login decision   `authNative_accept_iff` and its corollaries `locked_rejected`, `unknown_rejected`,
-                   `empty_password_iff_empty_response`, `runs_as_matched_account`
+                   `empty_password_iff_empty_response`, `runs_as_matched_account`; `authNative_no_crash`,
+                   `authNative_eq_spec_of_same_account`
   account choice   `chooseImpl_eq_find` (GetUser as a cascade), `unique_match_agree`
                    (false in general: `finding_match_order_by_insertion`), order-independence for
                    unambiguous logins is `Gms.C41.account_lookup_order_independent`
@@ -112,16 +114,28 @@ open Gms.Priv Gms.Auth
 /-! ## Regenerated facts -/
 
 set_option maxRecDepth 20000 in
-/-- The default (decoy) method, the guards of `validateMysqlNativePassword` before its XOR loop — there is
-no length check on the response — the loop itself, the sequence of hash steps with the final whole-hash
-comparison, and the decision skeletons of the four entry points
-are the ones the model is written for; `ValidateHash` has the same skeleton as `UserEntryWithHash` minus
-the connection-security check. -/
+/-- The default (decoy) method, the guards of `validateMysqlNativePassword` before its XOR loop — the last
+one is the response-length check `len(authResponse) != len(scramble)`, the repair of findings F-C40-a/b —
+the loop itself, the sequence of hash steps with the final whole-hash comparison, the order of all of these
+(`nativeSkeleton`: the length check sits between `scramble := crypt.Sum(nil)` and the loop and returns
+`false`), and the decision skeletons of the four entry points are the ones the model is written for;
+`ValidateHash` has the same skeleton as `UserEntryWithHash` minus the connection-security check. If the
+length check disappears again this obligation breaks and `fixed_native_short_response_oob` below is the
+replay. -/
 theorem facts_match :
     Generated.C40.defaultAuthMethod = defaultAuthMethod ∧
     Generated.C40.defaultAuthMethodExpr = "mysql.MysqlNativePassword" ∧
-    Generated.C40.nativeGuards = ["len(authResponse) == 0 || len(mysqlNativePassword) == 0", "mysqlNativePassword[0] == '*'", "err != nil"] ∧
+    Generated.C40.nativeGuards = ["len(authResponse) == 0 || len(mysqlNativePassword) == 0", "mysqlNativePassword[0] == '*'", "err != nil",
+      "len(authResponse) != len(scramble)"] ∧
     Generated.C40.nativeXorLoop = "scramble:{ scramble[i] ^= authResponse[i] }" ∧
+    Generated.C40.nativeSkeleton = ["if len(authResponse) == 0 || len(mysqlNativePassword) == 0 { return false }",
+      "if mysqlNativePassword[0] == '*' { mysqlNativePassword = mysqlNativePassword[1:] }",
+      "hash, err := hex.DecodeString(mysqlNativePassword)", "if err != nil { return false }",
+      "crypt := sha1.New()", "crypt.Write(salt)", "crypt.Write(hash)", "scramble := crypt.Sum(nil)",
+      "if len(authResponse) != len(scramble) { return false }",
+      "for i := range scramble { scramble[i] ^= authResponse[i] }",
+      "stage1Hash := scramble", "crypt.Reset()", "crypt.Write(stage1Hash)", "candidateHash2 := crypt.Sum(nil)",
+      "return bytes.Equal(candidateHash2, hash)"] ∧
     Generated.C40.nativeSteps = ["hash, err := hex.DecodeString(mysqlNativePassword)", "crypt := sha1.New()", "crypt.Write(salt)",
       "crypt.Write(hash)", "scramble := crypt.Sum(nil)", "stage1Hash := scramble", "crypt.Reset()", "crypt.Write(stage1Hash)",
       "candidateHash2 := crypt.Sum(nil)", "return bytes.Equal(candidateHash2, hash)"] ∧
@@ -134,9 +148,14 @@ theorem facts_match :
       "err != nil", "userEntry.AuthString == \"\""] ∧
     Generated.C40.getUserConds = ["\"127.0.0.1\" == host || \"::1\" == host", "ok",
       "host == user.Host || (host == \"localhost\" && user.Host == \"::1\") || (host == \"localhost\" && user.Host == \"127.0.0.1\") || (user.Host == \"%\" && (!roleSearch || host == \"\")) || matchesHostPattern(host, user.Host) || (originalHost != host && matchesHostPattern(originalHost, user.Host))"] := by
-  refine ⟨by decide, by decide, by decide, by decide, by decide, by decide, by decide, by decide, by decide, by decide⟩
+  refine ⟨by decide, by decide, by decide, by decide, by decide, by decide, by decide, by decide, by decide, by decide, by decide⟩
 
 /-! ## The scramble check -/
+
+/-- A toy 20-byte "hash" (constant) and a stored value decoding to its output, for concrete instances of the
+theorems below (`decide` cannot run the real SHA-1; the theorems hold for every `H`). -/
+def toyH : Bytes → Bytes := fun _ => List.replicate 20 0
+def toyStored : List Char := '*' :: List.replicate 40 '0'
 
 /-- **Completeness.** A client that knows `h1 = H(password)` is accepted for an account whose stored value
 decodes to `H h1`, for every salt. -/
@@ -153,18 +172,21 @@ theorem native_complete (H : Bytes → Bytes) (hH : ∀ x, (H x).length = 20) (s
     cases hc : clientToken H salt h1 with
     | nil => rw [hc] at hlen; simp at hlen
     | cons _ _ => rfl
+  have hguard : ((clientToken H salt h1).length != (H (salt ++ H h1)).length) = false := by
+    rw [hlen, hH]; rfl
   constructor
-  · simp only [validateNative, hre, hne', Bool.or_self, Bool.false_eq_true, if_false, hs]
+  · simp only [validateNative, hre, hne', Bool.or_self, Bool.false_eq_true, if_false, hs, hguard]
     rw [xorPrefix_eq_xor _ _ (by simp [hH, hlen]), hcancel]
     simp
   · simp only [validateNativeSpec, hs, hne', hlen, hcancel]
     simp
 
-/-- **Soundness.** An accepted response exhibits a preimage of the stored hash under `H`: the strongest
-statement available with `H` uninterpreted (knowledge of `H(password)`). -/
+/-- **Soundness.** An accepted response has the length of the scramble and exhibits a preimage of the stored
+hash under `H`: the strongest statement available with `H` uninterpreted (knowledge of `H(password)`). -/
 theorem native_sound (H : Bytes → Bytes) (resp salt : Bytes) (stored : List Char)
     (h : validateNative H resp salt stored = some true) :
-    ∃ hash stage1, decodeStored stored = some hash ∧ xorPrefix (H (salt ++ hash)) resp = some stage1 ∧ H stage1 = hash := by
+    ∃ hash stage1, decodeStored stored = some hash ∧ resp.length = (H (salt ++ hash)).length ∧
+      xorPrefix (H (salt ++ hash)) resp = some stage1 ∧ H stage1 = hash := by
   simp only [validateNative] at h
   split at h
   · simp at h
@@ -172,11 +194,15 @@ theorem native_sound (H : Bytes → Bytes) (resp salt : Bytes) (stored : List Ch
     | none => simp [hd] at h
     | some hash =>
       simp only [hd] at h
-      cases hx : xorPrefix (H (salt ++ hash)) resp with
-      | none => simp [hx] at h
-      | some stage1 =>
-        simp only [hx, Option.some.injEq, beq_iff_eq] at h
-        exact ⟨hash, stage1, rfl, hx, h⟩
+      split at h
+      · simp at h
+      · rename_i hg
+        have hlen : resp.length = (H (salt ++ hash)).length := by simpa using hg
+        cases hx : xorPrefix (H (salt ++ hash)) resp with
+        | none => simp [hx] at h
+        | some stage1 =>
+          simp only [hx, Option.some.injEq, beq_iff_eq] at h
+          exact ⟨hash, stage1, rfl, hlen, hx, h⟩
 
 theorem native_sound_spec (H : Bytes → Bytes) (resp salt : Bytes) (stored : List Char)
     (h : validateNativeSpec H resp salt stored = true) :
@@ -188,15 +214,12 @@ theorem native_sound_spec (H : Bytes → Bytes) (resp salt : Bytes) (stored : Li
     simp only [hd, Bool.and_eq_true, beq_iff_eq] at h
     exact ⟨hash, rfl, h.1.2, h.2⟩
 
-/- Full statement — FALSE for the code as it is (see the two findings below):
-   theorem native_impl_eq_spec (H) (hH) (resp salt stored) :
-     validateNative H resp salt stored = some (validateNativeSpec H resp salt stored) -/
-
-/-- **The scramble check is the Spec's, guarded**: outside the two defect regions (response of 1–19 bytes
-against a decodable stored hash; response longer than 20 bytes) the code computes exactly the Spec — in
-particular it never panics. -/
-theorem native_impl_eq_spec_partial (H : Bytes → Bytes) (hH : ∀ x, (H x).length = 20) (resp salt : Bytes) (stored : List Char)
-    (hs : shortResponse resp stored = false) (hl : longResponse resp = false) :
+/-- **The scramble check is the Spec's — full statement (holds since the `fix:` commit).** For every
+20-byte hash function, every response, salt and stored value, `validateMysqlNativePassword` returns exactly
+what the Spec demands: `true` for a 20-byte token `t` with `H (t ⊕ H (salt ++ stored)) = stored`, `false` for
+everything else (empty, short, long response; empty or undecodable stored hash) — and it returns, i.e. does
+not panic. (Before the repair this held only outside the regions `shortResponse` / `longResponse`.) -/
+theorem native_impl_eq_spec (H : Bytes → Bytes) (hH : ∀ x, (H x).length = 20) (resp salt : Bytes) (stored : List Char) :
     validateNative H resp salt stored = some (validateNativeSpec H resp salt stored) := by
   simp only [validateNative, validateNativeSpec]
   by_cases hr : resp.isEmpty = true
@@ -208,43 +231,91 @@ theorem native_impl_eq_spec_partial (H : Bytes → Bytes) (hH : ∀ x, (H x).len
       cases hd : decodeStored stored with
       | none => rfl
       | some hash =>
-        have hpos : 0 < resp.length := by cases resp <;> simp_all
-        have h20 : resp.length = 20 := by
-          simp only [shortResponse, longResponse, hd, Option.isSome_some, hst, Bool.not_false, Bool.and_true,
-            Bool.and_eq_false_iff, decide_eq_false_iff_not, Nat.not_lt] at hs hl
-          rcases hs with hs | hs
-          · omega
-          · omega
-        simp only []
-        rw [xorPrefix_eq_xor _ _ (by simp [hH, h20])]
-        simp [h20]
+        simp only [hH]
+        by_cases h20 : resp.length = 20
+        · have hg : (resp.length != 20) = false := by rw [h20]; rfl
+          simp only [hg, Bool.false_eq_true, if_false]
+          rw [xorPrefix_eq_xor _ _ (by simp [hH, h20])]
+          simp [h20]
+        · have hg : (resp.length != 20) = true := by simp [h20]
+          simp [hg, h20]
 
-/-- **Finding F-C40-a (`native_short_response_oob`).** For every 20-byte hash function, every salt and
-every account with a decodable stored hash: a response of 1–19 bytes makes `validateMysqlNativePassword`
-index past the response (run-time panic) instead of rejecting it. -/
-theorem finding_native_short_response_oob (H : Bytes → Bytes) (hH : ∀ x, (H x).length = 20) (resp salt : Bytes)
+/-- Non-vacuity of `native_impl_eq_spec`'s hypothesis, and both verdicts on concrete inputs (a toy 20-byte
+"hash"): a 20-byte response is checked, a 19-byte and a 21-byte one are rejected without a panic. -/
+example : (∀ x, (toyH x).length = 20)
+    ∧ validateNative toyH (List.replicate 20 0) [1, 2] toyStored = some true
+    ∧ validateNative toyH (List.replicate 19 0) [1, 2] toyStored = some false
+    ∧ validateNative toyH (List.replicate 21 0) [1, 2] toyStored = some false := by
+  refine ⟨fun _ => by simp [toyH], by decide, by decide, by decide⟩
+
+/-- **No panic — for every function `H`**, even one that does not return 20 bytes: the XOR loop is only
+reached with a response exactly as long as the scramble. -/
+theorem native_no_crash (H : Bytes → Bytes) (resp salt : Bytes) (stored : List Char) :
+    validateNative H resp salt stored ≠ none := by
+  simp only [validateNative]
+  split
+  · simp
+  · cases hd : decodeStored stored with
+    | none => simp
+    | some hash =>
+      simp only []
+      split
+      · simp
+      · rename_i hg
+        have hlen : resp.length = (H (salt ++ hash)).length := by simpa using hg
+        rw [xorPrefix_eq_xor _ _ (by omega)]
+        simp
+
+/-- A response whose length is not 20 is rejected, whatever else is the case. -/
+theorem native_wrong_length_rejected (H : Bytes → Bytes) (hH : ∀ x, (H x).length = 20) (resp salt : Bytes)
+    (stored : List Char) (h : resp.length ≠ 20) :
+    validateNative H resp salt stored = some false := by
+  rw [native_impl_eq_spec H hH]
+  simp only [validateNativeSpec]
+  cases decodeStored stored with
+  | none => rfl
+  | some hash =>
+    have : (resp.length == 20) = false := by simp [h]
+    simp [this]
+
+/-- **Repaired defect F-C40-a (`native_short_response_oob`).** Before the `fix:` commit, for every 20-byte
+hash function, every salt and every account with a decodable stored hash, a response of 1–19 bytes made
+`validateMysqlNativePassword` index past the response (run-time panic: `none` in the pre-fix model) instead
+of rejecting it; the repaired function rejects it, as the Spec demands. -/
+theorem fixed_native_short_response_oob (H : Bytes → Bytes) (hH : ∀ x, (H x).length = 20) (resp salt : Bytes)
     (stored : List Char) (h : shortResponse resp stored = true) :
-    validateNative H resp salt stored = none ∧ validateNativeSpec H resp salt stored = false := by
+    validateNativePreFix H resp salt stored = none ∧ validateNative H resp salt stored = some false ∧
+      validateNativeSpec H resp salt stored = false := by
   simp only [shortResponse, Bool.and_eq_true, decide_eq_true_eq, Bool.not_eq_true', Option.isSome_iff_exists] at h
   obtain ⟨⟨⟨hpos, hlt⟩, hst⟩, hash, hd⟩ := h
   have hr : resp.isEmpty = false := by cases resp <;> simp_all
-  constructor
-  · simp only [validateNative, hr, hst, Bool.or_self, Bool.false_eq_true, if_false, hd]
-    rw [xorPrefix_none _ _ (by rw [hH]; exact hlt)]
-  · simp only [validateNativeSpec, hd]
+  have hspec : validateNativeSpec H resp salt stored = false := by
+    simp only [validateNativeSpec, hd]
     have : (resp.length == 20) = false := by simp; omega
     simp [this]
+  refine ⟨?_, ?_, hspec⟩
+  · simp only [validateNativePreFix, hr, hst, Bool.or_self, Bool.false_eq_true, if_false, hd]
+    rw [xorPrefix_none _ _ (by rw [hH]; exact hlt)]
+  · rw [native_impl_eq_spec H hH, hspec]
 
-/-- The region is inhabited (the witness replayed on the real code: 19 zero bytes against the hash of "pw"). -/
+/-- The region is inhabited (the witness replayed on the real code: 19 zero bytes against the hash of "pw";
+it stays in the harness corpus and must now be rejected without a panic), and the defect on a concrete
+input with a toy 20-byte "hash": the pre-fix model panics, the repaired one rejects. -/
 example : shortResponse (List.replicate 19 0) "*D821809F681A40A6E379B50D0463EFAE20BDD122".toList = true := by decide
 
-/-- **Finding F-C40-b (`native_long_response_accepted`).** Bytes of the response after the 20th are never
-read: a valid token followed by arbitrary extra bytes is accepted, although it is not a well-formed
-response. -/
-theorem finding_native_long_response_accepted (H : Bytes → Bytes) (hH : ∀ x, (H x).length = 20) (salt h1 extra : Bytes)
+example :
+    validateNativePreFix toyH (List.replicate 19 0) [] "*D821809F681A40A6E379B50D0463EFAE20BDD122".toList = none
+    ∧ validateNative toyH (List.replicate 19 0) [] "*D821809F681A40A6E379B50D0463EFAE20BDD122".toList = some false := by
+  constructor <;> decide
+
+/-- **Repaired defect F-C40-b (`native_long_response_accepted`).** Before the `fix:` commit the bytes of the
+response after the 20th were never read: a valid token followed by arbitrary extra bytes was accepted,
+although it is not a well-formed response; the repaired function rejects it (the same length guard). -/
+theorem fixed_native_long_response_accepted (H : Bytes → Bytes) (hH : ∀ x, (H x).length = 20) (salt h1 extra : Bytes)
     (stored : List Char) (hs : decodeStored stored = some (H h1)) (hne : stored ≠ []) (hl : h1.length = 20)
     (hex : extra ≠ []) :
-    validateNative H (clientToken H salt h1 ++ extra) salt stored = some true ∧
+    validateNativePreFix H (clientToken H salt h1 ++ extra) salt stored = some true ∧
+    validateNative H (clientToken H salt h1 ++ extra) salt stored = some false ∧
     validateNativeSpec H (clientToken H salt h1 ++ extra) salt stored = false := by
   have hlen : (clientToken H salt h1).length = 20 := by
     simp only [clientToken]; rw [xor_length _ _ (by rw [hl, hH])]; exact hl
@@ -255,15 +326,25 @@ theorem finding_native_long_response_accepted (H : Bytes → Bytes) (hH : ∀ x,
     cases extra with
     | nil => exact absurd rfl hex
     | cons e es => simp
-  constructor
-  · simp only [validateNative, hre, hne', Bool.or_self, Bool.false_eq_true, if_false, hs]
-    rw [xorPrefix_eq_xor _ _ (by rw [hH, List.length_append, hlen]; omega),
-      xor_append_right _ _ _ (by simp [hH, hlen]), hcancel]
-    simp
-  · have : ((clientToken H salt h1 ++ extra).length == 20) = false := by
+  have hspec : validateNativeSpec H (clientToken H salt h1 ++ extra) salt stored = false := by
+    have : ((clientToken H salt h1 ++ extra).length == 20) = false := by
       have : 0 < extra.length := by cases extra <;> simp_all
       simp [List.length_append, hlen]; omega
     simp only [validateNativeSpec, hs, this, Bool.and_false, Bool.false_and]
+  refine ⟨?_, ?_, hspec⟩
+  · simp only [validateNativePreFix, hre, hne', Bool.or_self, Bool.false_eq_true, if_false, hs]
+    rw [xorPrefix_eq_xor _ _ (by rw [hH, List.length_append, hlen]; omega),
+      xor_append_right _ _ _ (by simp [hH, hlen]), hcancel]
+    simp
+  · rw [native_impl_eq_spec H hH, hspec]
+
+/-- The hypotheses of `fixed_native_long_response_accepted` are satisfiable (toy 20-byte "hash"), and the
+defect on that concrete input: 20 zero bytes are the token, a 21st byte was ignored before the repair. -/
+example :
+    decodeStored toyStored = some (toyH [])
+    ∧ validateNativePreFix toyH (List.replicate 20 0 ++ [7]) [1, 2] toyStored = some true
+    ∧ validateNative toyH (List.replicate 20 0 ++ [7]) [1, 2] toyStored = some false := by
+  refine ⟨by decide, by decide, by decide⟩
 
 /-! ## The login decision -/
 
@@ -323,9 +404,10 @@ theorem runs_as_matched_account (H : Bytes → Bytes) (accts : List Acct) (user 
   obtain ⟨a, hc, _, hu, hh, _⟩ := (authNative_accept_iff H accts user host u h salt resp).1 hacc
   exact ⟨a, hc, by rw [hu, hh]⟩
 
-/-- The login never panics outside the short-response region. -/
-theorem authNative_no_crash_partial (H : Bytes → Bytes) (hH : ∀ x, (H x).length = 20) (enabled : Bool) (accts : List Acct)
-    (user host : String) (salt resp : Bytes) (hs : ∀ a ∈ accts, shortResponse resp a.auth = false) :
+/-- **The login never panics — full statement (holds since the `fix:` commit)**: for every function `H`,
+every account list, login and response (before the repair: only outside the short-response region). -/
+theorem authNative_no_crash (H : Bytes → Bytes) (enabled : Bool) (accts : List Acct)
+    (user host : String) (salt resp : Bytes) :
     authNative H enabled accts user host salt resp ≠ .crash := by
   simp only [authNative]
   split
@@ -333,36 +415,38 @@ theorem authNative_no_crash_partial (H : Bytes → Bytes) (hH : ∀ x, (H x).len
   · cases hc : chooseImpl accts user host with
     | none => simp
     | some a =>
-      have hmem : a ∈ accts := by
-        simp only [chooseImpl, Option.bind_eq_some_iff] at hc
-        obtain ⟨i, _, hi⟩ := hc
-        exact List.mem_of_getElem? hi
       simp only [checkAcct]
       split
       · simp
       · split
         · cases hv : validateNative H resp salt a.auth with
           | some b => cases b <;> simp
-          | none =>
-            exfalso
-            -- a panic means the response is short
-            have hsa := hs a hmem
-            simp only [validateNative] at hv
-            split at hv
-            · simp at hv
-            · rename_i hne
-              cases hd : decodeStored a.auth with
-              | none => simp [hd] at hv
-              | some hash =>
-                simp only [hd] at hv
-                by_cases hlen : (H (salt ++ hash)).length ≤ resp.length
-                · rw [xorPrefix_eq_xor _ _ hlen] at hv; simp at hv
-                · rw [hH] at hlen
-                  simp only [Bool.or_eq_true, not_or, Bool.not_eq_true] at hne
-                  have hpos : 0 < resp.length := by cases resp <;> simp_all
-                  simp [shortResponse, hd, hne.2, hpos] at hsa
-                  omega
+          | none => exact absurd hv (native_no_crash H resp salt a.auth)
         · split <;> simp
+
+/-- With the repaired scramble check the credential check against an account is the Spec's. -/
+theorem checkAcct_impl_eq_spec (H : Bytes → Bytes) (hH : ∀ x, (H x).length = 20) (a : Acct) (salt resp : Bytes) :
+    checkAcct (validateNative H) a salt resp =
+      checkAcct (fun r s st => some (validateNativeSpec H r s st)) a salt resp := by
+  simp only [checkAcct, native_impl_eq_spec H hH]
+
+/-- **The login decision is the Spec's whenever `GetUser` picks the account the Spec picks** (the only
+remaining difference between code and Spec is the choice of the account, finding
+`match_order_by_insertion`); in particular a short or over-long response is denied, not a panic and not an
+acceptance. -/
+theorem authNative_eq_spec_of_same_account (H : Bytes → Bytes) (hH : ∀ x, (H x).length = 20) (accts : List Acct)
+    (user host : String) (salt resp : Bytes) (a : Acct)
+    (hi : chooseImpl accts user host = some a) (hsp : chooseSpec accts user host = some (some a)) :
+    authNativeSpec H accts user host salt resp = some (authNative H true accts user host salt resp) := by
+  simp only [authNativeSpec, authNative, hi, hsp, Bool.not_true, Bool.false_eq_true, if_false,
+    checkAcct_impl_eq_spec H hH]
+
+/-- Non-vacuity: a single account, the login it matches. -/
+example : chooseImpl [{ name := "u", host := "%", plugin := "mysql_native_password", auth := "*AA".toList, locked := false }] "u" "10.0.0.5"
+      = some { name := "u", host := "%", plugin := "mysql_native_password", auth := "*AA".toList, locked := false }
+    ∧ chooseSpec [{ name := "u", host := "%", plugin := "mysql_native_password", auth := "*AA".toList, locked := false }] "u" "10.0.0.5"
+      = some (some { name := "u", host := "%", plugin := "mysql_native_password", auth := "*AA".toList, locked := false }) := by
+  decide
 
 /-! ## Which account a login is checked against -/
 
